@@ -106,25 +106,78 @@ def r05_1_mapping_table(ctx: Ctx) -> RuleResult:
     return rr
 
 
+def _strip_checks(e: ast.expr) -> ast.expr:
+    """`_Preconditions._check_not_null(x, "name")` returns x: replace the call by its first argument."""
+    import copy
+
+    class T(ast.NodeTransformer):
+        def visit_Call(self, node: ast.Call) -> ast.AST:  # noqa: N802
+            self.generic_visit(node)
+            if isinstance(node.func, ast.Attribute) and node.func.attr == "_check_not_null" and node.args:
+                return node.args[0]
+            return node
+
+    return T().visit(copy.deepcopy(e))
+
+
 def _match_table(f) -> dict:
-    """`match <x>.count:` arms -> {value: ('return'|'raise', text)}"""
-    out = {}
-    for m in own_nodes(f.node):
-        if isinstance(m, ast.Match) and unparse(m.subject).endswith("count"):
-            for c in m.cases:
-                vals = []
-                p = c.pattern
-                pats = p.patterns if isinstance(p, ast.MatchOr) else [p]
-                for q in pats:
-                    if isinstance(q, ast.MatchValue) and isinstance(q.value, ast.Constant):
-                        vals.append(q.value.value)
-                    elif isinstance(q, ast.MatchAs) and q.pattern is None:
-                        vals.append("_")
-                st = c.body[-1]
-                eff = ("return", unparse(st.value)) if isinstance(st, ast.Return) else (("raise", unparse(st.exc)) if isinstance(st, ast.Raise) else ("other", unparse(st)))
-                for v in vals:
-                    out[v] = eff
-    return out
+    """Outcome of a function that selects on `<x>.count`, per count value: {k: ('return'|'raise', expression text)}.
+    Decided by following the function for each k (match arms, if/elif chains on the count or a local alias of it, in any mix);
+    temporaries are inlined and argument-check wrappers are looked through, so the table is the same however the selection is spelt."""
+    from ..kit import inline_locals
+
+    def is_count(e: ast.expr) -> bool:
+        e = _strip_checks(inline_locals(f.node, e))
+        return isinstance(e, ast.Attribute) and e.attr == "count"
+
+    def decide(t: ast.expr, k: int) -> bool | None:
+        if isinstance(t, ast.BoolOp):
+            vs = [decide(v, k) for v in t.values]
+            if isinstance(t.op, ast.Or):
+                return True if any(v is True for v in vs) else (None if any(v is None for v in vs) else False)
+            return False if any(v is False for v in vs) else (None if any(v is None for v in vs) else True)
+        if isinstance(t, ast.UnaryOp) and isinstance(t.op, ast.Not):
+            d = decide(t.operand, k)
+            return None if d is None else not d
+        if isinstance(t, ast.Compare) and len(t.ops) == 1:
+            a, b, op = t.left, t.comparators[0], t.ops[0]
+            if is_count(b) and isinstance(a, ast.Constant):
+                a, b = b, a
+                op = {ast.Lt: ast.Gt(), ast.Gt: ast.Lt(), ast.LtE: ast.GtE(), ast.GtE: ast.LtE()}.get(type(op), op)
+            if is_count(a):
+                if isinstance(b, ast.Constant) and isinstance(b.value, int):
+                    c = b.value
+                    return {ast.Eq: k == c, ast.NotEq: k != c, ast.Lt: k < c, ast.LtE: k <= c, ast.Gt: k > c, ast.GtE: k >= c}.get(type(op))
+                if isinstance(op, (ast.In, ast.NotIn)) and isinstance(b, (ast.Tuple, ast.List, ast.Set)) and all(isinstance(x, ast.Constant) for x in b.elts):
+                    r = k in [x.value for x in b.elts]
+                    return r if isinstance(op, ast.In) else not r
+        return None
+
+    def run(body: list[ast.stmt], k: int):
+        for s in body:
+            if isinstance(s, ast.Return):
+                return ("return", unparse(_strip_checks(inline_locals(f.node, s.value))) if s.value is not None else "None")
+            if isinstance(s, ast.Raise):
+                return ("raise", unparse(_strip_checks(inline_locals(f.node, s.exc))) if s.exc is not None else "")
+            if isinstance(s, ast.If):
+                d = decide(s.test, k)
+                if d is None:
+                    return ("other", "undecided test `" + unparse(s.test) + "`")
+                r = run(s.body if d else s.orelse, k)
+                if r is not None:
+                    return r
+            elif isinstance(s, ast.Match) and is_count(s.subject):
+                for c in s.cases:
+                    pats = c.pattern.patterns if isinstance(c.pattern, ast.MatchOr) else [c.pattern]
+                    hit = any((isinstance(q, ast.MatchValue) and isinstance(q.value, ast.Constant) and q.value.value == k) or (isinstance(q, ast.MatchAs) and q.pattern is None) for q in pats)
+                    if hit and c.guard is None:
+                        r = run(c.body, k)
+                        if r is not None:
+                            return r
+                        break
+        return None
+
+    return {k: run(f.body, k) for k in (0, 1, 2)}
 
 
 @rule("C05")
@@ -377,4 +430,20 @@ def r05_6_calendar_retention(ctx: Ctx) -> RuleResult:
     rr = RuleResult("R05.6", "zone mapping keeps the calendar of the local value (no optional `calendar` dropped)", min_instances=3)
     files = anchor_files("C05")
     check_retention(ctx, rr, lambda f: f.mod.rel in files)
+    return rr
+
+
+@rule("C05")
+def r05_6_resolver_slots(ctx: Ctx) -> RuleResult:
+    """The stock resolvers are lazily built singletons: each getter must fill the slot it tests, or asking for one resolver
+    replaces another (strict would start answering leniently, depending on which was asked for first)."""
+    from ..memo import lazy_slots
+
+    rr = RuleResult("R05.7", "stock resolver getters fill the slot they test", min_instances=2)
+    for ls in lazy_slots(ctx.M, anchor_files("C05")):
+        rr.inst()
+        if ls.problem:
+            rr.fail(ls.fn.qual, ls.problem, ctx.loc(ls.fn, ls.node))
+        else:
+            rr.ok({"getter": ls.fn.qual, "slot": ls.slot})
     return rr
